@@ -397,8 +397,16 @@ def judge_ctor(c, rec):
                 meter, temp = meter.to_frame("value"), temp.to_frame("tempF")
             st_of = frame_state if form != "series" else series_state
             bm, bt = st_of(meter), st_of(temp)
+            # reporting data without a meter: from_series(None, weather, tzinfo=<the site's zone>) - the weather object is the caller's too
+            t_only = Cls is Rep and fam in ("daily", "billing") and (not c["observed"] or c["seed"] % 2 == 0)
             try:
-                data = Cls.from_series(meter, temp, is_electricity_data=c["electric"])
+                if t_only:
+                    import pytz
+
+                    cls.append("temperature-only-with-tzinfo")
+                    data = Cls.from_series(None, temp, is_electricity_data=c["electric"], tzinfo=pytz.timezone(c["tz"]))
+                else:
+                    data = Cls.from_series(meter, temp, is_electricity_data=c["electric"])
             except Exception as e:
                 rec.note("ctor-raises:" + type(e).__name__)
                 rec.case(c, False, cls)
@@ -451,10 +459,30 @@ def shards(tier, seed):
     out.append({"sub": "history", "family": "daily_reloaded", "n": 4 if q else 40, "steps": 7 if q else 25, "seed": mix(seed, ID, "daily_reloaded")})
     for i in range(4):
         out.append({"sub": "ctor", "n": 40 if q else 500, "seed": mix(seed, ID, "ctor", i)})
+    out.append({"sub": "ctor-fixed", "seed": int(seed)})
+    return out
+
+
+def fixed_ctor_cases(seed):
+    """temperature-only reporting data through from_series with the site's zone given as tzinfo and the weather kept in another zone
+    (every run: the combination is too rare among the generated constructor cases)"""
+    out = []
+    for klass in ("daily", "billing"):
+        for tz in ("America/Chicago", "Europe/London"):
+            for ftz in ("UTC", "Asia/Tokyo"):
+                for form in ("series", "frame_named", "frame_other"):
+                    out.append({"kind": "ctor", "klass": klass, "entry": "from_series", "baseline": False, "tz": tz, "n": 60, "series_form": form, "feed_tz": ftz,
+                                "seed": 2 * (int(seed) % 500), "nan": [], "zeros": [], "electric": True, "observed": False, "noise": 0.05})
     return out
 
 
 def run_shard(spec, rec):
+    if spec["sub"] == "ctor-fixed":
+        from ..hyp import run_judge
+
+        for c in fixed_ctor_cases(spec["seed"]):
+            run_judge(judge, c, rec)
+        return
     if spec["sub"] == "ctor":
         explore(ctor_cases(), judge, rec, max_examples=spec["n"], seed=spec["seed"], shrink=False)
     else:
